@@ -4,32 +4,31 @@ from vlib import std, hbuild, corr
 
 PID = "C42"
 META = {
-    "text": "Theorems (Properties_C42.v, 22, closed under the global context) over the Gallina models of Ip::Address "
-            "comparison/mask primitives (src/ip/Address.cc), acl_ip_data::firstAddress/lastAddress, "
+    "text": "Theorems (Properties_C42.v, 17, closed under the global context) over the Gallina models of Ip::Address "
+            "matchIPAddr/mask primitives (src/ip/Address.cc), acl_ip_data::firstAddress/lastAddress, "
             "Acl::SplayInserter<acl_ip_data*>::Compare/IsSubset/MakeCombinedValue, aclIpAddrNetworkCompare, "
             "ACLIP::parseGlobal/parse/match (src/acl/Ip.cc), Acl::SplayInserter<>::Merge (src/acl/SplayInserter.h) and "
             "include/splay.h (SplayModel.v, shared with C41): for EVERY list of parsed values (single address, CIDR network, "
             "address range, range of networks) without host bits below a prefix mask, in any order, with duplicates and "
-            "overlaps, parse() ends normally, the stored ranges stay sorted and pairwise disjoint with the same union, and "
-            "match(address) is true exactly when the address lies in the union of the configured sets or its family is "
-            "selected by all/ipv4/ipv6 -- PROVIDED the special-cased addresses 0.0.0.0 and 255.255.255.255 do not meet IPv6 "
-            "values in the way spelled out by [quirk_free] (partial). Without that proviso the statement is REFUTED for the "
-            "faithful model (theorems C42_*_refuted; the witnesses are replayed against the real code on every run): "
-            "Ip::Address::operator< / <= / > / >= special-case isAnyAddr()/isNoAddr() and are not an order. "
-            "The model is tied to the code by differential runs of the extracted model against the real "
-            "ACLIP/acl_ip_data/Ip::Address compiled from the working tree (ASan+UBSan), comparing exact tree shapes.",
-    "note": "partial: (1) text -> (addr1, addr2, mask) is NOT modelled (FactoryParse's sscanf patterns, getaddrinfo, DecodeMask "
-            "text handling): the harness prints what the real FactoryParse() returned for each token and the model starts "
-            "from those triples; only the integer-CIDR mask construction (applyMask(cidr, type)) is modelled and its '/0 is "
-            "NoAddr' shortcut is proved to turn ::/0 into the single address :: (finding C42-prefix0). (2) main theorems carry "
-            "the hypothesis quirk_free (0.0.0.0 / 255.255.255.255 vs IPv6 end points); pure-IPv4 lists satisfy it for every "
-            "probe (corollary). Values WITH host bits below the mask, reversed ranges and non-prefix masks are modelled as "
-            "the code behaves and covered by correspondence only. Trusted: Coq kernel, extraction, harness/h_aclip.cc (it "
-            "supplies ConfigParser::strtokFile tokens to the real ACLIP::parse(), sets Ip::EnableIpv6 as on a dual-stack "
-            "host, and turns self_destruct() into an exception). Side finding outside the property (a reversed range is not a "
-            "valid value): `acl x src 10.0.0.9-10.0.0.1 10.0.0.0/8` makes Merge() free a value the tree still holds "
-            "(heap-use-after-free under ASan; the model predicts it: theorem C42_reversed_range_frees_stored_value, "
-            "reproducer in corpus/C42/known.txt). Candidate repair for C42-anyaddr-order: fixes/C42-anyaddr-order.diff.",
+            "overlaps, parse() ends normally (no exception, no freed-but-stored value, Merge loop within its bound), the "
+            "stored ranges stay sorted and pairwise disjoint with the same union, and match(address) -- also any sequence of "
+            "tree-reshaping lookups -- is true exactly when the address lies in the union of the configured sets or its "
+            "family is selected by all/ipv4/ipv6. No side condition: since /repo 98f97cc the ACL code orders addresses with "
+            "matchIPAddr() (a total order) instead of the Ip::Address relational operators. The model is tied to the code by "
+            "differential runs of the extracted model against the real ACLIP/acl_ip_data/Ip::Address compiled from the "
+            "working tree (ASan+UBSan), comparing exact tree shapes.",
+    "note": "partial only in this sense: text -> (addr1, addr2, mask) is NOT modelled (FactoryParse's sscanf patterns, "
+            "getaddrinfo, DecodeMask text handling): the harness prints what the real FactoryParse() returned for each token "
+            "and the model starts from those triples; only the integer-CIDR mask construction (applyMask(cidr, type)) is "
+            "modelled and its '/0 is NoAddr' shortcut is proved to turn ::/0 into the single address :: (known finding "
+            "C42-prefix0, theorem C42_prefix_length_zero_refuted). Values WITH host bits below the mask, reversed or "
+            "cross-family ranges and non-prefix masks are modelled as the code behaves and covered by correspondence only. "
+            "Trusted: Coq kernel, extraction, harness/h_aclip.cc (it supplies ConfigParser::strtokFile tokens to the real "
+            "ACLIP::parse(), sets Ip::EnableIpv6 as on a dual-stack host, and turns self_destruct() into an exception). "
+            "Side finding outside the property (a reversed range is not a valid value): `acl x src 10.0.0.9-10.0.0.1 "
+            "10.0.0.0/8` makes Merge() free a value the tree still holds (heap-use-after-free under ASan; the model predicts "
+            "it: theorem C42_reversed_range_frees_stored_value, reproducer in corpus/C42/known.txt). The former finding "
+            "C42-anyaddr-order was repaired in /repo by 98f97cc; its reproducers are regressions in corpus/C42/regress.txt.",
     "technique": "Coq proof (interval semantics of prefix masks by a / 2^h * 2^h arithmetic, sorted-disjoint invariant for "
                  "the fuel-bounded Merge loop with MakeCombinedValue, sign-monotone comparator for the shared splay "
                  "library) + extracted-model differential correspondence with exact tree shapes + independent Python oracle",
@@ -150,22 +149,6 @@ def member(d, p):
     return d[1] <= p <= d[2]
 
 
-def quirk_trigger(ds, p):
-    """the situations in which Ip::Address::operator< <= > >= leave the numeric order (finding C42-anyaddr-order):
-    0.0.0.0 (as an end point, as the probe or as a masked probe) together with an end point in ::1..::fffe:ffff:ffff,
-    or 255.255.255.255 together with an end point in ::1:0:0:0 .. ffff:...:fffe"""
-    sets = [d for d in ds if d[0] == "set"]
-    ends = set()
-    for d in sets:
-        ends.update([d[1], d[2]])
-        if d[4] is not None:
-            ends.add(d[4])
-    masked = set([p] + [p & d[3] for d in sets]) if p is not None else set()
-    low = any(0 < e < V4ANY for e in ends)
-    high = any(V4NO < e < ALL1 for e in ends)
-    return ((V4ANY in ends or V4ANY in masked) and low) or ((V4NO in ends or V4NO in masked) and high)
-
-
 # ---------------------------------------------------------------- output parsing
 def parse_tree(s):
     pos = [0]
@@ -251,8 +234,6 @@ def oracle(case, out):
                 if exp != (b == "1"):
                     if exp and not any(member(d, p) for d in ds if not (d[0] == "set" and d[5])):
                         kind = "prefix0:"           # expected only because of a value written with prefix length 0
-                    elif quirk_trigger(ds, p):
-                        kind = "anyaddr-order:"
                     else:
                         kind = ""
                     return (tag + kind + ("missed" if exp else "spurious"),
@@ -266,10 +247,6 @@ def oracle(case, out):
                 iv = clean_interval(triple(a[2]))
                 if iv is None:
                     return None
-                t = triple(a[2])
-                A = p & t[2]
-                if (A == V4ANY and 0 < t[1] < V4ANY) or (A == V4NO and V4NO < t[0] < ALL1):
-                    return None             # the documented operator quirk (reported through acl cases)
                 exp = -1 if p < iv[0] else (1 if p > iv[1] else 0)
                 got = int(out)
                 if (got > 0) - (got < 0) != exp:
@@ -278,9 +255,6 @@ def oracle(case, out):
                 return None
             i1, i2 = clean_interval(triple(a[1])), clean_interval(triple(a[2]))
             if i1 is None or i2 is None:
-                return None
-            pts = [i1[0], i1[1], i2[0], i2[1]]
-            if (V4ANY in pts and any(0 < e < V4ANY for e in pts)) or (V4NO in pts and any(V4NO < e < ALL1 for e in pts)):
                 return None
             if op == "cmp":
                 exp = -1 if i1[1] < i2[0] else (1 if i1[0] > i2[1] else 0)
@@ -451,7 +425,8 @@ def gen_lists(rng, n):
             else:
                 toks.append(rng.choice(full4 + full6l))
         lists.append((toks, probes_for(rng, toks, False)))
-    # (4) the special-cased addresses 0.0.0.0 / 255.255.255.255 / :: and "/0" next to IPv6 values (findings)
+    # (4) the addresses the Ip::Address operators special-case (0.0.0.0 / 255.255.255.255 / ::) and "/0" next to
+    #     IPv6 values (regressions of the repaired C42-anyaddr-order; known finding C42-prefix0)
     for _ in range(n // 25):
         k = rng.choice([1, 2, 2, 3, 4])
         toks = [rng.choice(QUIRKY) if rng.random() < 0.6 else rng.choice(WIDE + full6l[:60]) for _ in range(k)]
